@@ -34,8 +34,9 @@ for f in ["cumsum", "cumprod"]:
     T(M(f), "pos", lambda c: K(c.A()), auto_out=True)
     T(M(f), "axis", lambda c: K(c.A(), axis=c.ax0()), shapes=ND, auto_out=True)
 for f in ["conj", "conjugate", "copy", "flatten", "nonzero", "ravel", "squeeze", "tolist", "tobytes", "transpose",
-          "byteswap", "dumps", "item", "sort", "argsort", "round", "view"]:
+          "byteswap", "item", "sort", "argsort", "round", "view"]:
     T(M(f), "pos", lambda c: K(c.A()))
+T(M("dumps"), "pos", lambda c: K(c.A()), result="string")  # a pickle: carries the class, not only numbers
 T(M("copy"), "order", lambda c: K(c.A(), order="F"), shapes=D2)
 T(M("copy"), "orderpos", lambda c: K(c.A(), "F"), shapes=D2)
 T(M("flatten"), "order", lambda c: K(c.A(), order="F"), shapes=D2)
